@@ -13,7 +13,6 @@ VARIABLES C, u, v, M
 vars == <<C, u, v, M>>
 CNeg == {-1, 0, 2}
 CPos == {0, 1, 3}
-MinOf(S) == CHOOSE m \in S : \A x \in S : m <= x
 Init == /\ C \in [Rows -> [Cols -> CSet]]
         /\ u = [i \in Rows |-> MinOf({C[i][j] : j \in Cols})] /\ v = [j \in Cols |-> 0] /\ M = {}
 Tight(i, j) == u[i] + v[j] = C[i][j]
@@ -55,4 +54,6 @@ Optimal == Cardinality(M) = N =>
              /\ Cost = SumOver(Rows, LAMBDA i : u[i]) + SumOver(Cols, LAMBDA j : v[j])
 Progress == Cardinality(M) < N => ENABLED Next
 MaxTwin == OptAssign(C, FALSE) = -OptMinTwin(Neg(C))
+\* the subset dynamic programme AssignTrace uses beyond 7 columns agrees with the recursion and with plain enumeration
+DpTwin == DpMin(C) = RowMin(C, 1, {}) /\ DpMin(C) = OptMinTwin(C)
 ==========================================================================
